@@ -154,7 +154,7 @@ impl Check for C20 {
         "C20"
     }
     fn rule(&self) -> String {
-        "generated (N in {600, 1500, 3000} (thorough: up to 30000) small files spread over 1-5 directories, some multi-block, workers in {1,4,64}, driver, schedule) run with RLIMIT_NOFILE=1024 set in the child: unsupervised, and under the ptrace scheduler with walker > dispatcher > main > pool (queues fill up while the pool is held back), one starved worker, random priorities, workers-first. Oracle (judged): exit 0 and the destination tree complete by the reference model; with N > 512 an in-flight set proportional to N would hit EMFILE. Reported, not judged: the supervisor's exact peak number of simultaneously open descriptors per (driver, workers, N), so a reader can see it is flat in N. Every case is non-trivial (N >= 600); distinct by case hash.".into()
+        "generated (N in {600, 1500, 3000} (thorough: up to 30000) small files spread over 1-5 directories, some multi-block, optionally plus a chain of 300/1100 nested directories, workers in {1,4,64}, driver, schedule) run with RLIMIT_NOFILE=1024 set in the child: unsupervised, and under the ptrace scheduler with walker > dispatcher > main > pool (queues fill up while the pool is held back), one starved worker, random priorities, workers-first. Oracle (judged): exit 0 and the destination tree complete by the reference model; with N > 512 an in-flight set proportional to N would hit EMFILE. Reported, not judged: the supervisor's exact peak number of simultaneously open descriptors per (driver, workers, N), so a reader can see it is flat in N. Every case is non-trivial (N >= 600); distinct by case hash.".into()
     }
     fn needs(&self) -> Needs {
         Needs { xcp: true, probe: false, fallback: false }
